@@ -854,6 +854,63 @@ def list_property_oracle(ctx, dc, klass, name, prop, kind, values, b=None):
         ctx.fail('property:list-roundtrip', f'{where} = {values!r} -> {xml!r} -> {back[1]!r}', case)
 
 
+LIST_SEPARATORS = [' ', ' ', ' ', '  ', '\t', '\n', '\r', '\r\n', ' \t ', '\xa0', '\u2003', '\u3000', '\x85', '\x0b', '\x0c', '\u2028', '\u200b', '\u2009', ',', ';']
+
+
+def gen_list_literals(rng, n):
+    """attribute values of a decimal list: legal tokens (sometimes an illegal one) joined by blanks, by tab / LF / CR (reach the
+    application through character references) and by non-XML white space (NBSP, EM SPACE, IDEOGRAPHIC SPACE, NEL, VT, FF ...)"""
+    res = ['', ' ', '1.5', '1.5 2.5', '1.5  2.5', ' 1.5 2.5 ', '1.5\xa02.5', '1.5 2.5\xa0', '\xa01.5', '1.5\u20032.5', '1.5\u30002.5', '1.5\x852.5',
+           '1.5\t2.5', '1.5\n2.5', '1.5\r2.5', '1.5\t', '\n1.5', '1.5 \t 2.5', '1.5\x0b2.5', '1.5\x0c2.5', '1.5 NaN', '1E5 2', '1.5,2.5', '1_0 2']
+    for i in range(n):
+        toks = [D_lit(rng) if rng.random() < 0.95 else rng.choice(['NaN', '1E5', '1_0', '١', '1.5.5', '-']) for _ in range(rng.randrange(0, 6))]
+        k = i % 3
+        out = rng.choice(['', '', ' ', '\xa0', '\t']) if k == 2 else ''
+        for j, t in enumerate(toks):
+            out += t
+            if j + 1 < len(toks):
+                out += rng.choice([' ', ' ', '  ']) if k == 0 else rng.choice(LIST_SEPARATORS)
+        out += rng.choice(['', '', ' ', '\xa0', '\n', '\u3000']) if k == 2 else ''
+        res.append(out)
+    return res
+
+
+def declist_read_oracle(ctx, dc, klass, name, prop, xml, b):
+    """XML -> Python of a decimal list attribute. xs:list of xs:decimal: items separated by XML white space (space, tab, LF, CR);
+    everything else (NBSP, other Unicode white space, any other character) belongs to a token. An attribute value that is not a
+    legal list must be rejected; a legal one is delivered item by item - never some other list"""
+    from lxml import etree
+    where = f'{klass.__name__}.{name}'
+    case = {'kind': 'proplist-read', 'cls': f'{klass.__module__}.{klass.__name__}', 'name': name, 'xml': xml}
+    node = etree.Element('x')
+    try:
+        node.set(prop._attribute_name, xml)
+        node = etree.fromstring(etree.tostring(node))        # tab / LF / CR travel as character references
+    except ValueError:
+        return                                               # not representable in XML (control characters)
+    delivered = node.get(prop._attribute_name)
+    inst = object.__new__(klass)
+    got = call(lambda: (prop.update_from_node(inst, node), getattr(inst, name))[1])
+    items = [t for t in re.split('[ \t\n\r]+', delivered.strip(XML_WS)) if t]
+    legal = all(RE_DEC.match(t) for t in items)
+    blanks_only = not any(c in delivered for c in '\t\n\r')
+    ctx.count('declist-read:' + ('legal' if legal else 'illegal') + (':blanks' if blanks_only else ':tab-lf-cr') + ':' + got[0])
+    if not legal:
+        if got[0] == 'ok':
+            ctx.fail('property:list-coerced', f'{where} <- {xml!r} is not a list of xsd:decimal but is read as {got[1]!r}', case)
+        elif got[1] != 'value':
+            ctx.fail('property:list-wrong-exception', f'{where} <- {xml!r} raised {got[1]}', case)
+    elif got[0] == 'ok':
+        want = [dc.DecimalConverter.to_py(t) for t in items]
+        if [x.as_tuple() for x in got[1]] != [x.as_tuple() for x in want]:
+            ctx.fail('property:list-read', f'{where} <- {xml!r}: {got[1]!r}, the items say {want!r}', case)
+    elif blanks_only:
+        ctx.fail('property:list-valid-rejected', f'{where} <- {xml!r} raised {got[1]}', case)
+    if b is not None:
+        b.add('declistpy ' + hx(delivered), 'ok' + ''.join(' ' + dec_tuple(v).replace(' ', ':') for v in got[1]) if got[0] == 'ok' else 'err ' + got[1],
+              'list read through ' + type(prop).__name__, {'xml': xml})
+
+
 def run_special_properties(ctx, dc, iso, b):
     from lxml import etree
     rng = ctx.subrng('special-props')
@@ -883,22 +940,10 @@ def run_special_properties(ctx, dc, iso, b):
             for lst in lists:
                 list_property_oracle(ctx, dc, klass, name, prop, kind, lst, b)
                 ctx.case(('declist', klass.__name__, [str(v) for v in lst]), nontrivial=bool(lst))
-            # XML -> Python: tokens separated by one or more blanks
-            for _ in range(ctx.n(300, 3000)):
-                toks = [D_lit(rng) for _ in range(rng.randrange(0, 6))]
-                xml = ''.join(t + ' ' * rng.randrange(1, 3) for t in toks).rstrip(' ') if rng.random() < 0.8 else ' '.join(toks)
-                node = etree.Element('x')
-                node.set(prop._attribute_name, xml)
-                inst = object.__new__(klass)
-                got = call(lambda: (prop.update_from_node(inst, node), getattr(inst, name))[1])
-                exp = call(lambda: [dc.DecimalConverter.to_py(t) for t in xml.split(' ') if t])
-                if got[0] != exp[0] or (got[0] == 'ok' and [x.as_tuple() for x in got[1]] != [x.as_tuple() for x in exp[1]]):
-                    ctx.fail('property:list-read', f'{klass.__name__}.{name} <- {xml!r}: {got[1]!r}, items say {exp[1]!r}',
-                             {'kind': 'proplist-read', 'cls': f'{klass.__module__}.{klass.__name__}', 'name': name, 'xml': xml})
-                elif got[0] == 'ok' and b is not None:
-                    for t, v in zip([t for t in xml.split(' ') if t], got[1]):
-                        b.add('decpy ' + hx(t), 'ok ' + dec_tuple(v), 'item read through ' + type(prop).__name__, {'t': t})
-                ctx.case(('declist-read', klass.__name__, xml), nontrivial=bool(toks))
+            # XML -> Python: tokens separated / glued by blanks, XML white space from character references and other white space
+            for xml in gen_list_literals(rng, ctx.n(1500, 15000)):
+                declist_read_oracle(ctx, dc, klass, name, prop, xml, b)
+                ctx.case(('declist-read', klass.__name__, xml), nontrivial=bool(xml.strip()))
         else:
             for lst in ([], ['h1'], ['h1', 'h2', 'h.3'], ['0', 'a-b', 'x_y']):
                 list_property_oracle(ctx, dc, klass, name, prop, kind, lst, b)
@@ -927,14 +972,7 @@ def replay_special_case(ctx, case):
                 vals = [Decimal(v) for v in case['values']] if case.get('item') == 'declist' else list(case['values'])
                 list_property_oracle(ctx, dc, klass, name, prop, kind, vals)
             elif case['kind'] == 'proplist-read':
-                from lxml import etree
-                node = etree.Element('x')
-                node.set(prop._attribute_name, case['xml'])
-                inst = object.__new__(klass)
-                got = call(lambda: (prop.update_from_node(inst, node), getattr(inst, name))[1])
-                exp = call(lambda: [dc.DecimalConverter.to_py(t) for t in case['xml'].split(' ') if t])
-                if got[0] != exp[0] or (got[0] == 'ok' and [x.as_tuple() for x in got[1]] != [x.as_tuple() for x in exp[1]]):
-                    ctx.fail('property:list-read', str(case), case)
+                declist_read_oracle(ctx, dc, klass, name, prop, case['xml'], None)
             return
 
 
